@@ -11,6 +11,7 @@ import (
 	"encoding/json"
 	"fmt"
 	"testing"
+	"time"
 
 	"pgregory.net/rapid"
 	"verifharness/internal/dst"
@@ -146,6 +147,9 @@ func run(c Case) (f *failure, nontrivial bool) {
 			if f := settle(); f != nil {
 				return f, nontrivial
 			}
+		case "sleep":
+			// a second of real time passes: records carry their connection time in whole seconds
+			time.Sleep(1100 * time.Millisecond)
 		case "announce":
 			// node Node is delivered the broadcast that announces the session of connection J and
 			// nothing else: the announcement of an earlier session arriving late, before its removal
@@ -401,9 +405,15 @@ func TestStaleAnnouncement(t *testing.T) {
 				if idx%sn != si {
 					return
 				}
-				for _, order := range []string{"oldest-first", "newest-first"} {
+				for _, order := range []string{"oldest-first", "newest-first", "oldest-first-seconds-apart"} {
+					if order == "oldest-first-seconds-apart" && (l > 3 || nodes > 2) {
+						continue // costs a second of real time per connection: the smallest chains only
+					}
 					c := Case{Nodes: nodes}
-					for _, nd := range place {
+					for k, nd := range place {
+						if k > 0 && order == "oldest-first-seconds-apart" {
+							c.Steps = append(c.Steps, Step{Op: "sleep"})
+						}
 						c.Steps = append(c.Steps, Step{Op: "connect", Node: nd})
 					}
 					host := place[l-1]
